@@ -47,10 +47,10 @@ func (f c04Fault) String() string {
 }
 
 type c04Run struct {
-	r        *hsResult
-	applied  bool
-	stuck    bool
-	layout   [2][]int // frame lengths seen per direction before the fault
+	r       *hsResult
+	applied bool
+	stuck   bool
+	layout  [2][]int // frame lengths seen per direction before the fault
 }
 
 // c04Exec runs one handshake of the shape with an optional fault.
@@ -174,7 +174,7 @@ func c04Layout(sh c04Shape) (c2s, s2c []int, err error) {
 func C04Plan() *vlib.Plan {
 	p := &vlib.Plan{
 		Property: "C04", Level: "fault_enumeration",
-		Rule: "E-FAULT: for each handshake shape (no authentication, CLAIMTOBE, TOKEN, resumed session; both sides REQUIRE encryption) a pre-pass records the cleartext frame layout; then one fault per run through a relay between two real endpoints: every byte offset of every cleartext frame (header and payload) x substitutes, an empty frame (flag 0 / 1) inserted before every frame, every frame removed / duplicated / split at its midpoint, every adjacent same-direction pair merged. Oracle: fault applied and any application message accepted by either side => violation. Non-trivial = the fault was applied to a live frame (distinct (shape, direction, frame, fault) by construction).",
+		Rule:   "E-FAULT: for each handshake shape (no authentication, CLAIMTOBE, TOKEN, resumed session; both sides REQUIRE encryption) a pre-pass records the cleartext frame layout; then one fault per run through a relay between two real endpoints: every byte offset of every cleartext frame (header and payload) x substitutes, an empty frame (flag 0 / 1) inserted before every frame, every frame removed / duplicated / split at its midpoint, every adjacent same-direction pair merged. Oracle: fault applied and any application message accepted by either side => violation. Non-trivial = the fault was applied to a live frame (distinct (shape, direction, frame, fault) by construction).",
 		Assume: []string{"frame layout of the cleartext path is value-independent (lengths recorded in the pre-pass; offsets beyond a live frame are counted as skipped)", "session ids / ECDH keys / nonces are random per run: faults are addressed by position, not value"},
 	}
 	p.Gen = func(tier string, yield func(vlib.Case)) {
